@@ -172,6 +172,16 @@ func secWire(h *hctx, r *lib.RNG) {
 			mut("index-2^32+i", func(p *pb.PropellerUnit) { p.Index += 1 << 32 })
 			mut("index-max", func(p *pb.PropellerUnit) { p.Index = 1<<64 - 1 })
 			mut("nonce-max", func(p *pb.PropellerUnit) { p.Nonce = 1<<64 - 1 })
+			// two defects at once: the order of the checks decides which error is reported
+			mut("no-shards+short-root", func(p *pb.PropellerUnit) { p.Shards = nil; p.MerkleRoot = h256([]byte{1, 2}) })
+			mut("unequal-shards+short-root", func(p *pb.PropellerUnit) {
+				p.Shards.Shards = []*pb.Shard{{Data: []byte{1, 2}}, {Data: []byte{3}}, {Data: []byte{4, 5}}}
+				p.MerkleRoot = h256([]byte{0, 0x11})
+			})
+			mut("unequal-shards+long-root", func(p *pb.PropellerUnit) {
+				p.Shards.Shards = []*pb.Shard{{Data: []byte{1, 2}}, {Data: []byte{3}}, {Data: []byte{4, 5}}}
+				p.MerkleRoot = h256(append(append([]byte{}, p.MerkleRoot.Elements...), 7))
+			})
 			mut("everything-nil", func(p *pb.PropellerUnit) { *p = pb.PropellerUnit{} })
 			mut("only-shards", func(p *pb.PropellerUnit) { *p = pb.PropellerUnit{Shards: &pb.ShardsOfPeer{Shards: []*pb.Shard{{Data: sh}}}} })
 		}
